@@ -218,6 +218,11 @@ Definition is_stream (r : cresp) : bool :=
   existsb (fun e => mem_str (lower_s (c_media e)) stream_formats) (cr_content r)
   || existsb c_binfmt (cr_content r).
 
+(* parser.py: stream_format = the format of the LAST content entry found in STREAM_FORMATS *)
+Definition stream_format_of (r : cresp) : option str :=
+  fold_left (fun acc e => match alookup (lower_s (c_media e)) stream_format_table with Some f => Some f | None => acc end)
+            (cr_content r) None.
+
 Definition is_binary_media (m : str) : bool :=
   mem_str m binary_media_exact || starts_any binary_media_prefixes m.
 
@@ -300,6 +305,7 @@ Inductive path :=
 | PStructure (code : str)     (* return <structure_from_dict(response.json(), …)> — needs the cattrs import *)
 | PStreamBytes                (* async for chunk in iter_bytes(response): yield chunk *)
 | PStreamSse                  (* async for chunk in iter_sse_events_text(response): yield json.loads(chunk) *)
+| PStreamNdjson (typed : bool) (* async for item in iter_ndjson(response): yield item | structure_from_dict(item, T) *)
 | PEndIter                    (* bare `return` in an async generator: the iteration yields nothing and ends *)
 | PRaiseHTTP                  (* no case for this status: the `case _` raises HTTPError *)
 | PGenError.                  (* the generator raises ValueError while rendering *)
@@ -324,10 +330,27 @@ Fixpoint switch (reg : registry) (m : list (str * rty)) (ct : str) : path :=
   | (k, t) :: rest => if str_eqb ct (lower_s k) then switch_path reg t else switch reg rest ct
   end.
 
+(* _is_ndjson_stream(strategy): the primary response's stream_format is "ndjson" and it has no event-stream content *)
+Definition is_ndjson_resp (r : cresp) : bool :=
+  opt_eqb str_eqb (stream_format_of r) (Some s_fmt_ndjson)
+  && negb (existsb (fun e => contains_s w_event_stream (c_media e)) (cr_content r)).
+Definition nd_of (o : cop) : bool := match cprimary o with Some r => is_ndjson_resp r | None => false end.
+Definition s_item : str := [105;116;101;109].
+(* the three streaming renderings; [nd] = _is_ndjson_stream(strategy) *)
+Definition stream_path (reg : registry) (nd : bool) (s : strategy) : path :=
+  if contains_s (show (TAsyncIter (TPrim PBytesT))) (show (st_ret s)) then PStreamBytes
+  else if nd then
+    match st_ret s with
+    | TAsyncIter t => if should_use_cattrs reg (show t)
+                      then match deser_code reg (show t) s_item with Some _ => PStreamNdjson true | None => PGenError end
+                      else PStreamNdjson false
+    | _ => PGenError
+    end
+  else PStreamSse.
+
 (* _write_strategy_based_return *)
-Definition strategy_path (reg : registry) (s : strategy) (ct : str) : path :=
-  if st_streaming s then
-    (if contains_s (show (TAsyncIter (TPrim PBytesT))) (show (st_ret s)) then PStreamBytes else PStreamSse)
+Definition strategy_path (reg : registry) (nd : bool) (s : strategy) (ct : str) : path :=
+  if st_streaming s then stream_path reg nd s
   else if prefixb (s_Union ++ s_lb) (show (st_ret s)) then
     match st_mapping s with
     | Some m => switch reg m ct
@@ -348,11 +371,11 @@ Definition cprocessed (o : cop) : option (cresp * N) :=
 (* a further 2xx response.  In a streaming operation (the method is an async generator) it is consumed with the
    operation's streaming strategy, or ends the iteration with a bare `return` when it has no body; otherwise it is
    resolved individually *)
-Definition secondary_path (reg : registry) (s : strategy) (ct : str) (r : cresp) : path :=
+Definition secondary_path (reg : registry) (nd : bool) (s : strategy) (ct : str) (r : cresp) : path :=
   if st_streaming s then
     match cr_content r with
     | [] => PEndIter
-    | _ => (if contains_s (show (TAsyncIter (TPrim PBytesT))) (show (st_ret s)) then PStreamBytes else PStreamSse)
+    | _ => stream_path reg nd s
     end
   else
   match handler_schema (cr_content r) with
@@ -376,19 +399,20 @@ Definition is_strategy_resp (o : cop) (r : cresp) : bool :=
 
 Definition handle (reg : registry) (o : cop) (st : N) (ct : str) : path :=
   let s := resolve o in
-  let prim_path := if is_none_ret s then PNone else strategy_path reg s ct in
+  let nd := nd_of o in
+  let prim_path := if is_none_ret s then PNone else strategy_path reg nd s ct in
   (* `case _:` — a default response with content returns only under `if 200 <= status < 300:` *)
   let default_branch :=
     if default_returns (map to_resp o) && in_range default_success_lo default_success_hi st then prim_path else PRaiseHTTP in
   let after_primary :=
     match find_status st (cothers o) with
     | Some r => match cr_code r with
-                | Num m => if lead2 m then secondary_path reg s ct r else PRaiseHTTP
+                | Num m => if lead2 m then secondary_path reg nd s ct r else PRaiseHTTP
                 | _ => PRaiseHTTP
                 end
     | None => match wildcard_resp o with
               | Some w => if in_range wildcard_lo wildcard_hi st
-                          then (if is_strategy_resp o w then prim_path else secondary_path reg s ct w)
+                          then (if is_strategy_resp o w then prim_path else secondary_path reg nd s ct w)
                           else default_branch
               | None => default_branch
               end
@@ -400,9 +424,10 @@ Definition handle (reg : registry) (o : cop) (st : N) (ct : str) : path :=
 
 (* structure_from_dict is imported by every branch that renders it: the primary/default strategy branch, the
    entries of a content-type switch, and every secondary 2xx branch (numeric or the "2XX" range) *)
-Definition strategy_registers (reg : registry) (s : strategy) : bool :=
-  negb (is_none_ret s) && negb (st_streaming s)
-  && if prefixb (s_Union ++ s_lb) (show (st_ret s)) then
+Definition strategy_registers (reg : registry) (nd : bool) (s : strategy) : bool :=
+  negb (is_none_ret s)
+  && if st_streaming s then match stream_path reg nd s with PStreamNdjson true => true | _ => false end
+     else if prefixb (s_Union ++ s_lb) (show (st_ret s)) then
        match st_mapping s with
        | Some m => existsb (fun kt => negb (str_eqb (show (snd kt)) s_bytes) && negb (str_eqb (show (snd kt)) s_str)
                                       && should_use_cattrs reg (show (snd kt))) m
@@ -421,14 +446,14 @@ Definition is_secondary_2xx (o : cop) (r : cresp) : bool :=
 Definition secondary_registers (reg : registry) (r : cresp) : bool :=
   match handler_schema (cr_content r) with Some e => should_use_cattrs reg (show (c_type e)) | None => false end.
 Definition registers_cattrs (reg : registry) (o : cop) : bool :=
-  emits_strategy o && strategy_registers reg (resolve o)
+  (emits_strategy o || st_streaming (resolve o) && existsb (fun r => is_secondary_2xx o r && match cr_content r with [] => false | _ => true end) (cothers o)) && strategy_registers reg (nd_of o) (resolve o)
   || negb (st_streaming (resolve o)) && existsb (fun r => is_secondary_2xx o r && secondary_registers reg r) (cothers o).
 Definition module_has_cattrs (reg : registry) (ops : list cop) : bool := existsb (registers_cattrs reg) ops.
 
 (* ------------------------------------------------------------------ the property, on the decision model *)
 Definition json_like (m : str) : bool := negb (is_binary_media m) && negb (prefixb p_text m).
 (* what the declared response (status, one of its content entries) calls for, from the property text *)
-Inductive want := WNone | WText | WBytes | WStreamBytes | WStreamEvents | WStreamItems | WJsonTyped (t : rty) | WJsonRaw (t : rty).
+Inductive want := WNone | WText | WBytes | WStreamBytes | WStreamEvents | WStreamLines | WStreamItems | WJsonTyped (t : rty) | WJsonRaw (t : rty).
 
 Definition ideal (primary : bool) (r : cresp) (e : option centry) : want :=
   match e with
@@ -438,7 +463,8 @@ Definition ideal (primary : bool) (r : cresp) (e : option centry) : want :=
         (if existsb (fun x => is_binary_media (c_media x)) (cr_content r) || existsb c_binfmt (cr_content r)
          then WStreamBytes
          else if existsb (fun x => contains_s w_event_stream (c_media x)) (cr_content r) then WStreamEvents
-         else WStreamItems)    (* ndjson / json-seq / multipart: one item per record *)
+         else if is_ndjson_resp r then WStreamLines    (* ndjson: one JSON item per line *)
+         else WStreamItems)    (* json-seq / multipart: one item per record *)
       else if is_binary_media (c_media e) then WBytes
       else if prefixb p_text (c_media e) then WText
       else if needs_structure (c_type e) then WJsonTyped (c_type e) else WJsonRaw (c_type e)
@@ -454,6 +480,7 @@ Definition delivers (imported : bool) (p : path) (w : want) : bool :=
   | PContent, WBytes => true
   | PStreamBytes, WStreamBytes => true
   | PStreamSse, WStreamEvents => true
+  | PStreamNdjson _, WStreamLines => true
   | PCast, WJsonRaw _ => true
   | PStructure c, WJsonTyped t =>
       imported && (str_eqb c (sfd s_rj (show t))
@@ -561,9 +588,14 @@ Definition guard_F05c (d : dcase) : bool :=
             || negb (mem_str (show (ctype_to_python e)) [s_str; s_bytes]))
       else negb (single || collapsed || negb (is_primary_case d))
   end.
-(* F05f: line/record streams (ndjson, json-seq, multipart) are read with the SSE parser *)
+(* F05f: record streams that are not read by a record parser: json-seq / multipart (SSE parser), or an ndjson stream
+   for which the ndjson rendering is not reached (e.g. the primary's items are bytes) *)
 Definition guard_F05f (d : dcase) : bool :=
-  match the_want d with WStreamItems => false | _ => true end.
+  match the_want d with
+  | WStreamItems => false
+  | WStreamLines => match stream_path (d_reg d) (nd_of (the_cop d)) (resolve (the_cop d)) with PStreamNdjson _ => true | _ => false end
+  | _ => true
+  end.
 (* F05i: a JSON response whose type the single return annotation does not cover (secondary 2xx of another type) *)
 Definition guard_F05i (d : dcase) : bool :=
   match the_entry d with
